@@ -297,6 +297,15 @@ Theorem C18_fatal_answer_ends_loop :
   forall r rest, dial_fatal r = true -> connect_script (r :: rest) = (1%nat, Some false).
 Proof. exact connect_script_fatal. Qed.
 
+(* ... quantitatively: the k-th wait of the reconnection loop (k = 0 first) is at least min(2^k * min, max) - with the
+   defaults 100 ms, 200 ms, 400 ms ... up to 15 s - and at most max + 10 % + 1ns, for every legal jitter sequence *)
+Theorem C18_backoff_kth_wait :
+  forall cmin cmax ws k w, (0 <= cmin)%Z -> (0 <= cmax)%Z -> legal_run (connect_backoff cmin cmax) ws = true ->
+  nth_error (backoff_run (connect_backoff cmin cmax) ws) k = Some (Some w) ->
+  (Z.min (2 ^ Z.of_nat k * Z.min (bo_min (connect_backoff cmin cmax)) (bo_max (connect_backoff cmin cmax))) (bo_max (connect_backoff cmin cmax)) <= w
+   /\ w <= bo_max (connect_backoff cmin cmax) + bo_max (connect_backoff cmin cmax) / 10 + 1)%Z.
+Proof. exact connect_kth_wait. Qed.
+
 Print Assumptions C18_shutdown_withdraws.
 Print Assumptions C18_advertises_what_it_holds.
 Print Assumptions C18_cancel_before_leave.
@@ -331,3 +340,4 @@ Print Assumptions C18_leave_ids_nodup.
 Print Assumptions C18_ex_leave_run.
 Print Assumptions C18_transient_failures_are_retried.
 Print Assumptions C18_fatal_answer_ends_loop.
+Print Assumptions C18_backoff_kth_wait.
